@@ -74,10 +74,13 @@ void run_history(Run &R, int maxops) {
     } else if (op == 1) { // store request
       int sub = 1 + (int)c.t.below(ng + 1); bool good = c.t.below(4) != 0; uint32_t sig = good ? 0x65766173u : (c.t.coin() ? 0x64616F6Cu : c.t.u32()); if (!good && sig == 0x65766173u) sig ^= 1;
       std::vector<uint8_t> rb = s.snapshot(), nb = s.nvm;
-      arm(); uint32_t code = cl.write(0x1010, (uint8_t)sub, sig, 4); bool h = done();
-      VLOG(c, "write %08X to 1010h:%d -> %08X%s", sig, sub, code, h ? "   (NVM fault injected)" : "");
+      // "any other value": also the first 1..3 bytes of the signature, announced as such, in a data field whose unused bytes go on spelling it
+      int len = 4; if (!good && c.t.chance(80)) { len = 1 + (int)c.t.below(3); sig = 0x65766173u; c.cls("short-write-with-the-signature-in-the-unused-bytes"); }
+      arm(); uint32_t code; if (len == 4) code = cl.write(0x1010, (uint8_t)sub, sig, 4); else { std::vector<uint8_t> b; for (int i = 0; i < len; i++) b.push_back((uint8_t)(sig >> (8 * i))); SdoRes r = cl.download_exp(0x1010, (uint8_t)sub, b, true, sig); code = r.aborted ? (r.code ? r.code : 0xFFFFFFFFu) : 0; }
+      bool h = done();
+      VLOG(c, "write %08X (%d byte(s)) to 1010h:%d -> %08X%s", sig, len, sub, code, h ? "   (NVM fault injected)" : "");
       CHECK(c, rb == s.snapshot(), "store-leaves-ram", "a store request changed RAM: %s", s.diff_snapshot(rb, s.snapshot()).c_str());
-      if (!good) { CHECK(c, code != 0, "wrong-signature-refused", "the value %08X written to 1010h:%d was accepted", sig, sub); CHECK(c, nb == s.nvm, "wrong-signature-touches-nothing", "a refused store request changed the NVM"); }
+      if (!good) { CHECK(c, code != 0, "wrong-signature-refused", "the value %08X (%d byte(s)) written to 1010h:%d was accepted", sig & (len == 4 ? 0xFFFFFFFFu : (1u << (8 * len)) - 1), len, sub); CHECK(c, nb == s.nvm, "wrong-signature-touches-nothing", "a refused store request changed the NVM"); }
       else {
         for (int i = first; i <= ng; i++) if ((sub == 1 || sub == i + 1) && g[i].en) memcpy(mnv.data() + g[i].off, g[i].ram, g[i].size);
         if (h) { CHECK(c, code != 0, "short-write-surfaced", "a short NVM write during 'save' to 1010h:%d was confirmed to the client", sub); mnv = s.nvm; /* contents of the fault step are unconstrained */ }
@@ -88,10 +91,12 @@ void run_history(Run &R, int maxops) {
     } else if (op == 2) { // restore request
       int sub = 1 + (int)c.t.below(ng + 1); bool good = c.t.below(3) != 0; uint32_t sig = good ? 0x64616F6Cu : (c.t.coin() ? 0x65766173u : c.t.u32()); if (!good && sig == 0x64616F6Cu) sig ^= 1;
       std::vector<uint8_t> rb = s.snapshot(), nb = s.nvm; std::fill(defcalls.begin(), defcalls.end(), 0);
-      arm(); uint32_t code = cl.write(0x1011, (uint8_t)sub, sig, 4); done();
-      VLOG(c, "write %08X to 1011h:%d -> %08X", sig, sub, code);
+      int len = 4; if (!good && c.t.chance(80)) { len = 1 + (int)c.t.below(3); sig = 0x64616F6Cu; c.cls("short-write-with-the-signature-in-the-unused-bytes"); }
+      arm(); uint32_t code; if (len == 4) code = cl.write(0x1011, (uint8_t)sub, sig, 4); else { std::vector<uint8_t> b; for (int i = 0; i < len; i++) b.push_back((uint8_t)(sig >> (8 * i))); SdoRes r = cl.download_exp(0x1011, (uint8_t)sub, b, true, sig); code = r.aborted ? (r.code ? r.code : 0xFFFFFFFFu) : 0; }
+      done();
+      VLOG(c, "write %08X (%d byte(s)) to 1011h:%d -> %08X", sig, len, sub, code);
       CHECK(c, nb == s.nvm, "restore-leaves-nvm", "a restore request changed the NVM");
-      if (!good) { CHECK(c, code != 0, "wrong-signature-refused", "the value %08X written to 1011h:%d was accepted", sig, sub); CHECK(c, rb == s.snapshot(), "wrong-signature-touches-nothing", "a refused restore request changed RAM"); for (int i = 0; i <= ng; i++) CHECK(c, defcalls[i] == 0, "wrong-signature-touches-nothing", "default callback invoked for a refused restore request"); }
+      if (!good) { CHECK(c, code != 0, "wrong-signature-refused", "the value %08X (%d byte(s)) written to 1011h:%d was accepted", sig & (len == 4 ? 0xFFFFFFFFu : (1u << (8 * len)) - 1), len, sub); CHECK(c, rb == s.snapshot(), "wrong-signature-touches-nothing", "a refused restore request changed RAM"); for (int i = 0; i <= ng; i++) CHECK(c, defcalls[i] == 0, "wrong-signature-touches-nothing", "default callback invoked for a refused restore request"); }
       else { CHECK(c, code == 0, "restore-accepted", "'load' written to 1011h:%d refused with %08X", sub, code);
         for (int i = first; i <= ng; i++) { int sel = ((sub == 1 || sub == i + 1) && g[i].en) ? 1 : 0; CHECK(c, defcalls[i] == sel, "restore-exact-groups", "'load' to 1011h:%d: default callback invoked %d time(s) for group %d, expected %d", sub, defcalls[i], i, sel); } }
     } else if (op == 3) { // restart between two completed requests: RAM is lost, NVM survives
@@ -147,7 +152,7 @@ void case_faultenum(Ctx &c) {
 
 Registrar reg(Prop{
     "C17",
-    "Cases: 1..4 parameter groups - or a device with sub-index 1 only, which then addresses its single group; highest sub-index of 1010h/1011h a direct constant or (a quarter of the node ids) a referenced variable at a chosen position of a 256-byte line - (size 1..64, non-overlapping NVM offsets with gaps, reset type node/communication, enable flags from {disabled, on command, autonomously, both}: store-on-command is bit 0) behind 1010h/1011h sub-indices 2..n+1 plus the 'all' sub-index 1, random RAM and NVM images; histories of RAM modifications, SDO writes to 1010h/1011h with right and wrong signatures, restarts (RAM lost, NVM kept), NMT reset node/communication and reads. "
+    "Cases: 1..4 parameter groups - or a device with sub-index 1 only, which then addresses its single group; highest sub-index of 1010h/1011h a direct constant or (a quarter of the node ids) a referenced variable at a chosen position of a 256-byte line - (size 1..64, non-overlapping NVM offsets with gaps, reset type node/communication, enable flags from {disabled, on command, autonomously, both}: store-on-command is bit 0) behind 1010h/1011h sub-indices 2..n+1 plus the 'all' sub-index 1, random RAM and NVM images; histories of RAM modifications, SDO writes to 1010h/1011h with right and wrong signatures (the other signature, random values, and the first 1..3 bytes of the right one announced as such with the rest of it in the unused bytes of the frame), restarts (RAM lost, NVM kept), NMT reset node/communication and reads. "
     "Mode fault-enum: each generated history of <= 12 (24) ops is first run without fault to count its NVM driver calls N and is then re-run once for EVERY fault position k = 1..N (k-th NVM call returns a short count); mode random: longer histories with a random fault position. "
     "Oracle: reference model of RAM, NVM, verdicts and node error (set after a step with a short count, none after a fault-free restart or reset): 'save' writes exactly the addressed enabled groups (byte-exact NVM compare), 'load' calls COParaDefault for exactly those, other values refused with RAM and NVM byte-identical, after restart/reset the groups of the right type equal the last successfully stored image, a short count yields an SDO abort (store) or a node error (load); in the fault step itself only the error signal is required. "
     "Non-trivial: a successful store followed by a restart/reset, or a fault position that was hit. evaluations counts generated histories; every fault-enum history additionally executes N faulted replays (class fault-position-executed). Distinct = distinct decoded choice sequence.",
